@@ -503,7 +503,9 @@ class World(object):
           getattr(writer, name)()
         h.rest_via_hook = True
       elif self.orig_lag:
-        self.vt.offset += self.orig_lag + 1000     # only a configured lag may make datapoints wait for the clock
+        # only a configured lag may make datapoints wait for the clock: move it past the youngest cached datapoint
+        newest = max([t for pts in cache.values() for t in pts] or [0])
+        self.vt.offset += max(self.orig_lag + 1000, newest - self.vt.time() + self.orig_lag + 1000)
       nones = 0
       for _ in range(10 * (len(h.final) + 2)):
         try:
